@@ -373,6 +373,7 @@ type mchunk struct {
 	Cipher   string
 	Gz       bool
 	Manifest bool
+	NonCanon string // set on entries READ from the filer whose chunk ids did not come back in string form
 }
 
 func (c mchunk) String() string {
@@ -388,6 +389,9 @@ func (c mchunk) String() string {
 	}
 	if c.Manifest {
 		s += " manifest"
+	}
+	if c.NonCanon != "" {
+		s += " NOT-CANONICAL(" + c.NonCanon + ")"
 	}
 	return s
 }
@@ -418,6 +422,13 @@ func chunkOf(c *filer_pb.FileChunk) mchunk {
 	}
 	if len(c.CipherKey) > 0 {
 		m.Cipher = fmt.Sprintf("%x", c.CipherKey)
+	}
+	// what was written carried the ids as strings; an entry that comes back must carry them as strings again
+	if c.FileId == "" && c.Fid != nil {
+		m.NonCanon = "file id only as struct"
+	}
+	if c.SourceFileId == "" && c.SourceFid != nil {
+		m.NonCanon += "source file id only as struct"
 	}
 	return m
 }
